@@ -424,3 +424,26 @@ package helper
 //@ trusted
 //@ func Bst.Max
 //@ trusted
+
+// ---- reports: a Report is a date stream plus a list of columns, each backed by its own value stream (C14) --------
+// col(x) / colnum(x) / colstr(x): the value stream of column object x
+//@ func NewNumericReportColumn
+//@ ensures[C14] colnum(result) == values
+
+//@ func NewAnnotationReportColumn
+//@ ensures[C14] colstr(result) == values
+
+//@ func NewReport
+//@ ensures[C14] result.Date == date && len(result.Columns) == 0
+
+//@ func Report.AddChart
+//@ trusted only the chart list (Views, [][]int: outside the verifier's subset) changes
+//@ modifies r
+//@ ensures r.Date == old(r.Date) && len(r.Columns) == old(len(r.Columns))
+//@ ensures forall i :: 0 <= i && i < len(r.Columns) ==> r.Columns[i] == old(r.Columns[i])
+
+//@ func Report.AddColumn
+//@ trusted appends the column; the Views bookkeeping ([][]int) is outside the verifier's subset
+//@ modifies r
+//@ ensures r.Date == old(r.Date) && len(r.Columns) == old(len(r.Columns)) + 1 && r.Columns[old(len(r.Columns))] == column
+//@ ensures forall i :: 0 <= i && i < old(len(r.Columns)) ==> r.Columns[i] == old(r.Columns[i])
